@@ -120,7 +120,15 @@ def check_property(prop, groups, tier, replays, seed=0, only_group=None, keep=Fa
         printed.add(key)
         print(f"KNOWN-FINDING: property={prop} {k['what']} [{obl_id(o)}]")
     vio_records = []
+    shown = 0
     for g, o in violations:
+        shown += 1
+        if shown > 12:
+            # the exit code and the evidence carry the total; keep the output and the replay directory readable
+            if shown == 13:
+                print(f"... {len(violations) - 12} further failing obligations of {prop} not listed (same run; see evidence/{prop}.json 'violations')")
+            rc = 1
+            continue
         rec = {"property": prop, "obligation": obl_id(o), "cbmc_property": o["name"], "sentence": o["text"],
                "group": g.name, "strength": g.strength, "location": f"{o['file']}:{o['line']} ({o['function']})",
                "counterexample_inputs": o.get("inputs", {}), "checker": "cbmc 6.11.0",
